@@ -166,6 +166,13 @@ def run_pp(cfg, prefix, scratch):
             s.point('inject.cancel', tgt, enabled=lambda: len(w.futures) > tgt)
             s.emit('inject', kind='cancel', target=tgt, done_before=w.futures[tgt].done())
             w.futures[tgt].cancel()
+        elif inj['kind'] == 'poll':
+            # the user asks the futures whether they are done, at an arbitrary moment
+            s.point('inject.poll', 0, enabled=lambda: len(w.futures) >= 1)
+            s.emit('inject', kind='poll')
+            for i, f in enumerate(w.futures):
+                if f.done():
+                    s.emit('observe.done', idx=i, tid=f.meta.transfer_id, listing=sorted(os.listdir(scratch.path)))
         elif inj['kind'] == 'ctrlc':
             s.point('inject.ctrlc', 0, enabled=lambda: len(w.futures) >= 1)
             s.emit('inject', kind='ctrlc', done_before=[f.done() for f in w.futures])
@@ -294,11 +301,23 @@ def judge(w):
         done_steps = [e[0] for e in log if e[2] == 'pp.done' and e[3]['tid'] == tid]
         put = [e[0] for e in log if e[2] == 'pp.job_put' and e[3]['tid'] == tid]
         comp = [e[0] for e in log if e[2] == 'pp.job_complete' and e[3]['tid'] == tid]
+        # what the user sees: whenever future.done() answered True, every job of the download had been
+        # accounted for by a worker and no temporary file of it was left
+        for e in log:
+            if e[2] == 'observe.done' and e[3]['tid'] == tid:
+                n_comp = len([x for x in comp if x < e[0]])
+                if n_comp < len(put):
+                    out.append(('C19:future-done-before-all-jobs',
+                                f'download {i}: future.done() was True at step {e[0]} with {n_comp}/{len(put)} jobs accounted for'))
+                tmp = [x for x in e[3]['listing'] if x.startswith(f'dst{i}.')]
+                if tmp:
+                    out.append(('C19:future-done-with-temp-file', f'download {i}: future.done() was True at step {e[0]} while {tmp} existed'))
+                break
         # (a second done notification is the mechanism's business; what the property excludes is
         #  its consequence: a download that nothing went wrong with and nobody cancelled reports failure)
         oc_i = w.outcomes.get(i)
         nothing_wrong = not w.client.injected and not w.osutil.injected and not any(
-            e[2] in ('inject', 'user.kbd') for e in log)
+            (e[2] == 'inject' and e[3].get('kind') != 'poll') or e[2] == 'user.kbd' for e in log)
         if nothing_wrong and oc_i and oc_i[0] != 'ok':
             out.append(('C19:failed-without-fault',
                         f'download {i}: no job, file-system or client fault was injected and nothing was cancelled, yet result() raised '
@@ -429,6 +448,15 @@ def jobs(tier):
                     'bound': {'inject': 1, 'env': 1, 'sched': 0 if q else 1}})
         out.append({'name': f'with-kbd {name}', 'cfg': dict(base, script='with_kbd'), 'bound': PL})
         out.append({'name': f'ctrlc-at-result {name}', 'cfg': dict(base, inject=[{'kind': 'ctrlc'}]), 'bound': CA})
+    # future.done() polled at every point: plain, x one fault, x cancel
+    for workers, dls in ((1, [dict(size=5)]), (2, [dict(size=7)]), (2, [dict(size=5), dict(size=3)])):
+        base = dict(workers=workers, downloads=dls, t=4, c=2)
+        name = f'w={workers} sizes={[d["size"] for d in dls]}'
+        out.append({'name': f'poll-done {name}', 'cfg': dict(base, inject=[{'kind': 'poll'}]), 'bound': {'inject': 1, 'sched': 0 if q else 1}})
+        out.append({'name': f'poll-done+fault {name}', 'cfg': dict(base, inject=[{'kind': 'poll'}], faults={'sites': FS}),
+                    'bound': {'inject': 1, 'env': 1, 'sched': 0}})
+        out.append({'name': f'poll-done+cancel {name}', 'cfg': dict(base, inject=[{'kind': 'cancel', 'target': 0}, {'kind': 'poll'}]),
+                    'bound': {'inject': 2, 'sched': 0}})
     for workers, dls in ((1, [dict(size=3), dict(size=5)]), (2, [dict(size=3), dict(size=7)]), (2, [dict(size=5), dict(size=3), dict(size=5)])):
         base = dict(workers=workers, downloads=dls, t=4, c=2)
         out.append({'name': f'result-of-first-then-kbd w={workers} sizes={[d["size"] for d in dls]}',
